@@ -264,6 +264,7 @@ def check(prop, tier, seed):
         gaps, gen_summary = regenerate()
         if gaps:
             broken.append({"stage": "translate", "what": "TranslatorGap", "detail": [list(map(str, g)) for g in gaps][:10]})
+        lake_build(["specdump"])
         ok_drv, log_drv = lake_build(["driver"])
         if not ok_drv:
             broken.append({"stage": "build", "what": "model driver does not build", "detail": tail_errors(log_drv)})
@@ -343,7 +344,7 @@ def setup():
         gaps, _ = regenerate()
         if gaps:
             print("setup: translator gaps:", gaps[:5])
-        targets = ["RichchkModel", "driver"] + sorted({t for c in PROPS.values() for t in c["targets"]})
+        targets = ["RichchkModel", "driver", "specdump"] + sorted({t for c in PROPS.values() for t in c["targets"]})
         ok, log = lake_build(targets)
         if not ok:
             print(log[-3000:])
